@@ -1346,7 +1346,17 @@ def judge_join(chk, cases):
             if ac:                       # an argument without chunks formats to ""
                 reqs.append(f"(chunks {ctx} ({ac}) {envs})")
                 index.append((ci, k))
+    n_text = len(reqs)
+    for ci, c in enumerate(live):        # structural tie: Print.__init__ + _clean_chunks against Model/PrintJoin.lean
+        ctx = ser_ctx([_Shape(w, sg) for w, sg in c["shapes"]])
+        sep = " " if c["sep"] is None else c["sep"]
+        end = "\n" if c["end"] is None else c["end"]
+        reqs.append(f"(pjoin {ctx} {hx(sep)} {hx(end)} ({c['chunks']}) (" + " ".join(f"({ac})" for ac in c["argchunks"]) + "))")
     resps = chk.driver.ask(reqs)
+    built = {}
+    for ci, (req, resp) in enumerate(zip(reqs[n_text:], resps[n_text:])):
+        built[ci] = (req, resp)
+    reqs, resps = reqs[:n_text], resps[:n_text]
     whole, perarg = {}, {}
     for (ci, k), req, resp in zip(index, reqs, resps):
         parts = resp.split(" ; ")
@@ -1374,6 +1384,7 @@ def judge_join(chk, cases):
                 pos = "only" if n == 1 else "first" if k == 0 else "last" if k == n - 1 else "middle"
                 chk.hist("join_empty_argument_at", pos)
                 chk.hist("join_empty_argument_kind", kd)
+        ok = True
         for j, (env, impl, tbr) in enumerate(zip(c["envs"], c["impl"], c["tb"])):
             d = common.kv(parts[1 + j])
             texts, failed = [], None
@@ -1399,6 +1410,14 @@ def judge_join(chk, cases):
             ok &= judge_text(chk, "eval_format of Print(*args, sep, end).message", b, tbr, orc, unhx(d["tb"]), unhx(d["tb"]), unhx(d["s"]))
             if not ok:
                 break
+        breq, bresp = built[ci]
+        bd = common.kv(bresp) if bresp.startswith("pjoin ") else {}
+        chk.hist("join_built", bd.get("built", "error"))
+        chk.hist("join_clean_form", bd.get("clean", "error"))
+        if bd.get("built") != "same" or bd.get("clean") != "1":
+            if ok:      # no text differs on the sampled environments: the structural tie alone is broken
+                chk.not_shown("correspondence Print.__init__/_clean_chunks = Model/PrintJoin.lean printChunks (theorem print_join_text)",
+                              dict(base, request=breq[:1500], response=bresp[:200]))
         chk.distinct(("join", c["chunks"], tuple(c["argchunks"]), c["sep"], c["end"]),
                      len(c["kinds"]) > 1 and any(kd.startswith(("empty", "format-of-empty")) for kd in c["kinds"]))
         chk.sample({"print": c["repr"], "env": c["envs"][0], "text": c["impl"][0][1]}, limit=16)
